@@ -8,6 +8,9 @@
 (* list of answers recorded from the implementation                        *)
 (*    [ j |-> entry number, m |-> "knn", k |-> k, res |-> 0-based indices ]*)
 (*    [ j, m |-> "rad", c |-> class index, res ]   (order free)            *)
+(*      radius answers may carry rk |-> "zero" | "tiny" | "beyond" (default *)
+(*      "between", with c) and own |-> TRUE (the element's stored           *)
+(*      coordinates were passed): see Nearest!RadiusPlan                    *)
 (*    [ j, m |-> "srad", c, res ]                  (sorted radius answer)  *)
 (*    [ j, m |-> "cnt", c, n |-> count ]                                   *)
 (*    [ j, m |-> "pick", res |-> <<index>> ]       (C12: the chosen source)*)
@@ -15,8 +18,9 @@
 (*    [ j, m |-> "ident", e, res |-> <<index>> ]   (C12: identity law)     *)
 (*                                                                         *)
 (* Plan  (before the implementation runs): prints for every case           *)
-(*    <<"P", id, lt, cls, descr, anti>>  ranks, distance-class indices,    *)
-(*    distance descriptors <<|q x s|^2, q.s>> and exact-antipode flags.    *)
+(*    <<"P", id, lt, cls, descr, anti, radii, zero>>  ranks, class indices,*)
+(*    distance descriptors <<|q x s|^2, q.s>>, exact-antipode flags, the   *)
+(*    radius cases to run (boundary radii included) and the coincident set *)
 (* Judge (after): prints <<"V", id, { <<j, clause>> }>> for every case     *)
 (*    with at least one false clause.                                      *)
 (***************************************************************************)
@@ -31,21 +35,31 @@ VARIABLE i      \* < 0: block marker, > 0: record index
 Vec3(x) == << x[1], x[2], x[3] >>
 Dirs(r) == [ e \in 1..Len(r.S) |-> Vec3(r.S[e]) ]
 
-EntryFailed(lt, e) ==
-    LET res == e.res IN
+Has(e, f) == f \in DOMAIN e
+
+\* z: 0-based indices of the elements coincident with q
+EntryFailed(lt, z, e) ==
+    LET res == e.res
+        all == 0..(Len(lt) - 1)
+        rk  == IF Has(e, "rk") THEN e.rk ELSE "between"
+        c   == IF Has(e, "c") THEN e.c ELSE 0
+        own == Has(e, "own") /\ e.own
+        lo  == RadLo(lt, z, all, rk, c, own)
+        hi  == RadHi(lt, z, all, rk, c)
+    IN
     CASE e.m = "knn"  -> (IF KnnShape(Len(lt), e.k, res) THEN {} ELSE {"KnnShape"})
                          \cup (IF KnnNearestFirst(lt, res) THEN {} ELSE {"NearestFirst"})
                          \cup (IF KnnTrueNearest(lt, res) THEN {} ELSE {"TrueNearest"})
       [] e.m = "pick" -> (IF KnnShape(Len(lt), 1, res) THEN {} ELSE {"PickShape"})
                          \cup (IF KnnTrueNearest(lt, res) THEN {} ELSE {"NearestSource"})
       [] e.m = "rad"  -> (IF RadShape(Len(lt), res) THEN {} ELSE {"RadShape"})
-                         \cup (IF RadNoneMissing(lt, e.c, res) THEN {} ELSE {"RadiusMissing"})
-                         \cup (IF RadNoneExtra(lt, e.c, res) THEN {} ELSE {"RadiusExtra"})
+                         \cup (IF lo \subseteq SeqRange(res) THEN {} ELSE {"RadiusMissing"})
+                         \cup (IF SeqRange(res) \subseteq hi THEN {} ELSE {"RadiusExtra"})
       [] e.m = "srad" -> (IF RadShape(Len(lt), res) THEN {} ELSE {"RadShape"})
-                         \cup (IF RadNoneMissing(lt, e.c, res) THEN {} ELSE {"RadiusMissing"})
-                         \cup (IF RadNoneExtra(lt, e.c, res) THEN {} ELSE {"RadiusExtra"})
+                         \cup (IF lo \subseteq SeqRange(res) THEN {} ELSE {"RadiusMissing"})
+                         \cup (IF SeqRange(res) \subseteq hi THEN {} ELSE {"RadiusExtra"})
                          \cup (IF KnnNearestFirst(lt, res) THEN {} ELSE {"NearestFirst"})
-      [] e.m = "cnt"  -> (IF e.n = Cardinality(WithinClass(lt, e.c)) THEN {} ELSE {"RadiusCount"})
+      [] e.m = "cnt"  -> (IF Cardinality(lo) <= e.n /\ e.n <= Cardinality(hi) THEN {} ELSE {"RadiusCount"})
       \* C12, IDW: the support of the weights must be SOME exact k-nearest set (order free)
       [] e.m = "kset" -> (IF KnnShape(Len(lt), e.k, res) THEN {} ELSE {"SupportShape"})
                          \cup (IF KnnTrueNearest(lt, res) THEN {} ELSE {"SupportNotNearest"})
@@ -59,13 +73,15 @@ EntryFailed(lt, e) ==
 Failed(r) ==
     LET S  == Dirs(r)
         lt == LtVec(Vec3(r.q), S)
-    IN UNION { { <<r.ents[x].j, cl>> : cl \in EntryFailed(lt, r.ents[x]) } : x \in 1..Len(r.ents) }
+        z  == ZeroSet(Vec3(r.q), S)
+    IN UNION { { <<r.ents[x].j, cl>> : cl \in EntryFailed(lt, z, r.ents[x]) } : x \in 1..Len(r.ents) }
 
 PlanOf(r) ==
     LET S  == Dirs(r)
         q  == Vec3(r.q)
         lt == LtVec(q, S)
-    IN << "P", r.id, lt, ClsVec(lt), DistDescr(q, S), [ e \in 1..Len(S) |-> Antipodal(q, S[e]) ] >>
+    IN << "P", r.id, lt, ClsVec(lt), DistDescr(q, S), [ e \in 1..Len(S) |-> Antipodal(q, S[e]) ],
+          RadiusPlan(lt), ZeroSet(q, S) >>
 
 Init == i \in { -b : b \in 1..NBlocks }
 Next == /\ i < 0
